@@ -164,5 +164,9 @@ class SimulatorImaging:
         image = Array2D(values=image, mask=mask)
 
         return Imaging(
-            data=image, psf=self.psf, noise_map=noise_map, check_noise_map=False
+            data=image,
+            psf=self.psf,
+            noise_map=noise_map,
+            check_noise_map=False,
+            use_normalized_psf=False,
         )
